@@ -1340,6 +1340,21 @@ theorem completed_reading (exro : Bool) (s : RS) (v : V) (hc : compFree s = true
     (hv : v.wf = true) : (visD true exro s v).isSome = true ↔ SatReq exro s (complete exro s v) := by
   rw [visD_completed_visit exro s v hc hs hv]; exact visit_asreq_iff exro s _
 
+/-- … and the value the validator hands on (the one re-encoded for the next handler) is exactly the completed
+value: for composition-free schemas the one-pass validator with `DefaultsSet` IS "complete, then validate" -/
+theorem visD_is_complete_then_validate (exro : Bool) (s : RS) (v : V) (hc : compFree s = true) (hs : s.wf = true)
+    (hv : v.wf = true) :
+    visD true exro s v = (if satReqB exro s (complete exro s v) then some (complete exro s v) else none) := by
+  have h1 := visD_completed_visit exro s v hc hs hv
+  rw [visit_eq_satReqB] at h1
+  cases hx : visD true exro s v with
+  | none => rw [hx] at h1; simp only [Option.isSome_none] at h1; simp [← h1]
+  | some v' =>
+    rw [hx] at h1
+    simp only [Option.isSome_some] at h1
+    rw [← h1, visD_value_compFree exro s hc v v' hx]
+    rfl
+
 /-- harmless defaults: completing the value does not change whether it satisfies the schema -/
 theorem harmless_completion (exro : Bool) (s : RS) (v : V) (hc : compFree s = true) (hs : s.wf = true)
     (hv : v.wf = true) (hh : dfltsHarmless exro s = true) :
